@@ -30,7 +30,10 @@ def check(run: Run, prog: Program, model: Model, tier: str) -> None:
         "schema marker at a position where the other side holds a schema; such a pair sends the generic != into "
         "eq()'s validate fallback and is reported with a counterexample when some schema accepts the marker."
         " The fixed-value row of the validator must be the plain `!=` comparison, so that schemas equal under Props.__eq__ give identical verdicts.")
+    run.explanation += ' KIND-CONFUSION also derives the absent-prop (Nil) construct: two unequal accept-everything schemas each equal `absent`.'
     run.rule_text = ("one obligation per compared key / structural clause / marker pair; non-trivial = derived on interpreter paths")
+    from ..entry import entry_transparent
+    entry_transparent(run, prog, model, "validate", "VALIDATE-ENTRY")
     pb = model.props_base
     eqm = pb.methods.get("__eq__")
     if eqm is None:
@@ -277,9 +280,20 @@ def _kind_confusion(run: Run, prog: Program, model: Model, eqf: Optional[FuncInf
         if not accepts_all:
             why.append("no schema accepts every value")
         run.holds("KIND-CONFUSION", construct, eqm.loc, "; ".join(why), nontrivial=True)
-    run.note("KIND-CONFUSION", "Props.__eq__: schema-valued prop vs Nil", eqm.loc,
-             "a schema-valued prop missing on one side also reaches the validate fallback with Nil, but only schemas that "
-             "accept everything validate Nil, which is also what the missing prop means: no counterexample")
+    # a schema-valued prop missing on one side reaches the same fallback with Nil.  Only schemas that accept everything
+    # validate Nil - which is what the missing prop means - so the two compared schemas do accept the same values; but there
+    # are several UNEQUAL accept-everything schemas (schema.any and an alias of it), and each of them equals "absent":
+    # == is then not transitive
+    c_nil = "Props.__eq__: schema-valued prop vs Nil"
+    has_alias = "TypeAliasSchema" in model.schemas
+    if not special and accepts_all and has_alias:
+        run.violated("KIND-CONFUSION", c_nil, eqm.loc,
+                     "a schema-valued prop that is absent on one side is compared as Nil through Schema.__ne__ -> eq() -> validate: every "
+                     "accept-everything schema equals `absent`, and two of them (schema.any, an alias of it) are not equal to each other",
+                     witness="a = schema.list(schema.alias('a', schema.any)); b = schema.list; c = schema.list(schema.any): a == b and b == c but a != c")
+    else:
+        run.holds("KIND-CONFUSION", c_nil, eqm.loc, "Props.__eq__ treats absent props explicitly / no two unequal accept-everything schemas",
+                  nontrivial=True)
 
 
 P = "d42/declaration/_props.py"
